@@ -18,11 +18,14 @@ def structural(u_path, e_path):
     ge = read_par(e_path)
     issues = []
     first = {}
-    for lhs, rhs in ge.bnf:
+    # symbols are compared together with their AST-control decoration (^, @name, :Type), as parol's
+    # own factoring does: `'d'@m5` and `'d'` cannot be merged without changing the generated AST
+    deco = ge.bnf_deco if (ge.is_plain_bnf() and len(ge.bnf_deco) == len(ge.bnf)) else [[""] * len(r) for _, r in ge.bnf]
+    for (lhs, rhs), d in zip(ge.bnf, deco):
         if rhs:
-            k = (lhs, rhs[0])
+            k = (lhs, rhs[0], d[0])
             first[k] = first.get(k, 0) + 1
-    for (lhs, sym), c in sorted(first.items(), key=str):
+    for (lhs, sym, _d), c in sorted(first.items(), key=str):
         if c > 1:
             issues.append({"key": "prefix:%s:%s" % (lhs, sym[1] if sym[0] == "N" else P.repr_key(sym[1])),
                            "text": "%d non-empty alternatives of %s still start with %s after left factoring" % (c, lhs, sym[1] if sym[0] == "N" else P.repr_key(sym[1]))})
